@@ -11,16 +11,19 @@ import numpy as np
 
 LD = np.longdouble
 
-# spelling -> family.  Only these spellings are handed to osyris.
+# spelling -> family.  Only these spellings are handed to osyris.  Each of the larger families contains pairs of
+# units whose ratio is graded towards 1 (1 +- 1e-2, 1e-3, 1e-5, 2e-6, 1e-7): "the exact ratio of the units" must not
+# be confused with 1 however close it is (survey_foot/foot, torr/mmHg, tropical/gregorian year, Btu_it/Btu_iso ...).
 FAMILIES = {
-    "length": ["cm", "m", "km", "au", "pc", "R_sun", "R_earth", "R_jup", "mm", "kpc"],
+    "length": ["cm", "m", "km", "au", "pc", "R_sun", "R_earth", "R_jup", "mm", "kpc",
+               "foot", "survey_foot", "angstrom", "angstrom_star"],
     "mass": ["g", "kg", "M_sun", "M_earth", "M_jup"],
-    "time": ["s", "yr", "kyr", "Myr", "day"],
+    "time": ["s", "yr", "kyr", "Myr", "day", "tropical_year", "gregorian_year", "sidereal_year", "sidereal_day"],
     "velocity": ["cm/s", "km/s", "m/s", "au/yr", "pc/Myr"],
     "density": ["g/cm**3", "kg/m**3", "M_sun/pc**3"],
-    "energy": ["erg", "J", "eV"],
+    "energy": ["erg", "J", "eV", "Btu_it", "Btu_iso", "cal", "cal_it"],
     "luminosity": ["erg/s", "W", "L_sun", "L_bol0"],
-    "pressure": ["erg/cm**3", "J/m**3"],
+    "pressure": ["erg/cm**3", "J/m**3", "torr", "mmHg", "atm", "bar"],
     "temperature": ["K"],
     "dimensionless": ["", "dimensionless", "percent", "ppm", "deg", "cm/m"],   # incl. scaled dimensionless units
     "magnetic": ["G"],
